@@ -521,6 +521,7 @@ func (c *Context) Sqrt(d, x *Decimal) (Condition, error) {
 	// workp + 2. But we use workp + 5 to make the tests pass. This means it is
 	// possible there are inputs we don't compute correctly and could be 1ulp off.
 	for maxp := workp + 5; p != maxp; {
+		verifLoopTick("sqrt.refine")
 		p = 2*p - 2
 		if p > maxp {
 			p = maxp
@@ -582,11 +583,13 @@ func (c *Context) Cbrt(d, x *Decimal) (Condition, error) {
 	// the cube root of a number between 0.125 and 1. After the next loops,
 	// x = z * 8^exp8 will hold.
 	for z.Cmp(decimalOneEighth) < 0 {
+		verifLoopTick("cbrt.scale_up")
 		exp8--
 		ed.Mul(&z, &z, decimalEight)
 	}
 
 	for z.Cmp(decimalOne) > 0 {
+		verifLoopTick("cbrt.scale_down")
 		exp8++
 		ed.Mul(&z, &z, decimalOneEighth)
 	}
@@ -603,10 +606,12 @@ func (c *Context) Cbrt(d, x *Decimal) (Condition, error) {
 	ed.Add(&z, &z, decimalCbrtC3)
 
 	for ; exp8 < 0; exp8++ {
+		verifLoopTick("cbrt.shift_neg")
 		ed.Mul(&z, &z, decimalHalf)
 	}
 
 	for ; exp8 > 0; exp8-- {
+		verifLoopTick("cbrt.shift_pos")
 		ed.Mul(&z, &z, decimalTwo)
 	}
 
@@ -781,6 +786,7 @@ func (c *Context) Ln(d, x *Decimal) (Condition, error) {
 		eps.Coeff.Set(bigOne)
 		eps.Exponent = -int32(p)
 		for n := 1; ; n++ {
+			verifLoopTick("ln.series")
 
 			// tmp3 *= (x / (x+2))^2
 			ed.Mul(&tmp3, &tmp3, &tmp2)
@@ -967,6 +973,7 @@ func (c *Context) Exp(d, x *Decimal) (Condition, error) {
 	sum.SetInt64(1)
 	tmp2.Exponent = 0
 	for i := n - 1; i > 0; i-- {
+		verifLoopTick("exp.horner")
 		tmp2.setCoefficient(i)
 		// tmp1 = r / i
 		ed.Quo(&tmp1, &r, &tmp2)
@@ -1012,6 +1019,7 @@ func (c *Context) integerPower(d, x *Decimal, y *BigInt) (Condition, error) {
 	z.Set(decimalOne)
 	ed := MakeErrDecimal(c)
 	for b.Sign() > 0 {
+		verifLoopTick("integerPower")
 		if b.Bit(0) == 1 {
 			ed.Mul(z, z, &n)
 		}
